@@ -278,6 +278,15 @@ def run_entry(entry, n, seed, acc, tier):
             if sites and cc:
                 sg, ei = sites[ch.integer(0, len(sites) - 1)]
                 sg.vals[ei] = [ch.choice(cc)]
+        if ch.chance(.15):
+            # a simple element sent with components (an error, but the segment is located): they come back as components
+            sites = [(sg, ei) for sg in doc.segs if sg.id not in ('ISA', 'GS', 'ST', 'SE', 'GE', 'IEA')
+                     for ei, c in enumerate(sg.node.children)
+                     if c.kind == 'ele' and c.dtype == 'AN' and not c.codes and not c.ext and c.usage != 'N' and ei > 0 and ei < len(sg.vals)
+                     and sg.vals[ei][0] != '' and c.de not in ('1250', '1251') and not c.regex]
+            if sites:
+                sg, ei = sites[ch.integer(0, len(sites) - 1)]
+                sg.vals[ei] = ['399 ELM', 'SUITE 4'] if ch.chance(.7) else ['A', '', 'C']
         if ch.chance(.1):
             # far more elements than the segment defines (reported, but the segment is located): past the 99th a reference
             # designator cannot name them any more, the XML labels them by position
